@@ -47,6 +47,7 @@ type ARec struct {
 	Multi int    `json:"multi,omitempty"` // continuation lines
 	Raw   rawStr `json:"raw,omitempty"`   // hostile material sent verbatim instead of a record (C07)
 	TS    int    `json:"ts,omitempty"`    // timestamp variant
+	Esc   bool   `json:"esc,omitempty"`   // the message carries backslash escapes for the configured unescape step
 }
 
 // ABurst is a group of records written with one client write, preceded by a pause
@@ -133,7 +134,7 @@ func (w *worldA) Decode(raw json.RawMessage) (any, error) {
 var aSeverities = []string{"off", "fatal", "crit", "error", "warn", "notice", "info", "debug"}
 
 func (s *AScenario) configYAML(variant string) string {
-	fields := "facility, level, time, host, app, pid, source, extradata, log, extra1"
+	fields := "facility, level, time, host, app, pid, source, extradata, log, extra1, extra3"
 	extra := ""
 	switch variant {
 	case "valid2":
@@ -178,12 +179,21 @@ transformations:
       source: dropme
     percentage: 100
     metricLabel: marker
+  - type: unescape
+    key: log
   - type: parseTime
     key: time
     errorLabel: timeError
   - type: addFields
     fields:
       extra1: x-$host
+  - type: if
+    match:
+      host: h2
+    then:
+      - type: addFields
+        fields:
+          extra3: only-$app-$pid
 %soutputBufferPairs:
   - name: fwd
     buffer:
@@ -228,6 +238,9 @@ func (s *AScenario) recordLine(client, seq int, rec ARec) string {
 	msg := fmt.Sprintf("c%d.n%d#", client, seq) // self-delimiting: a truncated stamp never equals another stamp
 	if rec.Fill > 0 {
 		msg += " " + strings.Repeat(string(rune('a'+seq%26)), rec.Fill)
+	}
+	if rec.Esc {
+		msg += fmt.Sprintf(` e\n%d\tq\\z`, seq)
 	}
 	line := fmt.Sprintf("<%d>1 %s %s %s %s %s - %s\n", pri, ts, host, kt[0], kt[2], msgid, msg)
 	for i := 0; i < rec.Multi; i++ {
@@ -516,6 +529,7 @@ func (w *worldA) tweak(r *simrt.Rand, s *AScenario, end int) {
 				for ri := range bu.Recs {
 					rec := &bu.Recs[ri]
 					rec.TS = r.Intn(8)
+					rec.Esc = r.Bool(35)
 					switch r.Intn(5) {
 					case 0:
 						rec.Multi = 1 + r.Intn(2)
@@ -617,9 +631,10 @@ func (w *worldA) Shrink(sc any) []any {
 				out = append(out, c)
 			}
 			for ri, rec := range bu.Recs {
-				if rec.Fill > 0 || rec.Multi > 0 || rec.Drop {
+				if rec.Fill > 0 || rec.Multi > 0 || rec.Drop || rec.Esc {
 					c := clone()
 					c.Clients[ci].Bursts[bi].Recs[ri].Fill, c.Clients[ci].Bursts[bi].Recs[ri].Multi, c.Clients[ci].Bursts[bi].Recs[ri].Drop = 0, 0, false
+					c.Clients[ci].Bursts[bi].Recs[ri].Esc = false
 					out = append(out, c)
 				}
 			}
